@@ -300,6 +300,15 @@ MUTANTS = [
      "        return DualPoint(orthed[..., 0, :])" if False else
      "            np.expand_dims(orthed[..., -1, :], axis=-2),",
      "            np.expand_dims(orthed[..., -1], axis=-2),"),
+    ("c15-fixpoint-unfix-unsorted-branch", ["C15", "C04"], "SH5", H,
+     "            sort_indices = np.argsort(in_plane, axis=-1)\n            sort_indices = np.expand_dims(sort_indices, axis=-2)\n",
+     "            sort_indices = np.argsort(in_plane, axis=-1)\n"),
+    ("c15-from-reflection-take-axis", ["C15", "C04"], "SH5", H,
+     "            np.real(evecs), np.expand_dims(reflected, axis=(-1,-2)), axis=-1",
+     "            np.real(evecs), np.expand_dims(reflected, axis=-1), axis=-1"),
+    ("c15-fixed-point-pair-slice", ["C15", "C04"], "SH5", H,
+     "        return PointPair(fixpoint_data[..., :2, :])",
+     "        return PointPair(fixpoint_data[..., :2])"),
     # ---- C15
     ("c15-drop-reflection-guard", ["C15"], "R1", H,
      "        if (np.abs(eval_differences) > ERROR_THRESHOLD).any():\n            raise GeometryError(\"Not a reflection matrix\")\n",
@@ -421,7 +430,7 @@ SEEDED = [
     ("r3-C10-1", "C10", "BFS1"), ("r3-C10-2", "C10", "RF1"),
     ("r3-C11-1", "C11", "S2"), ("r3-C11-2", "C11", "GI1"),
     ("r3-C13-1", "C13", "HD1"),
-    ("r3-C15-2", "C15", "R1"),
+    ("r3-C15-2", "C15", "R1"), ("C15-1", "C15", "SH5"),
     ("r3-C16-2", "C16", "R1c"),
     ("r3-C19-2", "C19", "K4"),
     ("r3-C20-2", "C20", "HD2"),
